@@ -207,46 +207,51 @@ structure SoloOp where
   push : Bool
   cnt : Nat
   disturbed : Bool
-  emptyAtInv : Bool
+  emptyAtInv : Option Bool   -- `none`: the acceptor had already rejected the log
+  reported : Bool := false
 
 structure SoloAcc where
   st : Option St
   ops : List SoloOp := []
   checked : Nat := 0      -- solo operations checked
-  helped : Nat := 0       -- of these: started while another thread was inside an operation
+  helped : Nat := 0       -- of these: run while another thread was stalled inside an operation
   maxPush : Nat := 0
   maxPop : Nat := 0
   viol : List String := []
 
+/-- The event counting does not depend on the acceptor (it goes on after a rejected event); only
+    the expected answer of a solo pop uses the model state at its `inv`. -/
 def soloStep (fx : Bool) (a : SoloAcc) (e : Ev) : SoloAcc :=
-  match a.st with
-  | none => a
-  | some s =>
-    let t := e.tid
-    let s' := stepG fx s e
-    let ops := a.ops.map (fun o => if o.t == t then { o with cnt := o.cnt + 1 } else { o with disturbed := true })
-    match e with
-    | .inv _ push _ _ =>
-      { a with st := s', ops := { t := t, push := push, cnt := 1, disturbed := false, emptyAtInv := (contents s).isEmpty } :: ops }
-    | .ret _ ok _ =>
-      match ops.find? (fun o => o.t == t) with
-      | none => { a with st := s', ops := ops }
-      | some o =>
-        let ops' := ops.filter (fun o => o.t != t)
-        if o.disturbed then { a with st := s', ops := ops' } else
-        let v1 := if o.cnt > soloBound o.push then
-            [s!"thread {t}: a {if o.push then "push" else "pop"} that ran alone took {o.cnt} events, the solo bound is {soloBound o.push}"]
+  let t := e.tid
+  let s' := a.st.bind (fun s => stepG fx s e)
+  let ops := a.ops.map (fun o => if o.t == t then { o with cnt := o.cnt + 1 } else { o with disturbed := true })
+  -- an operation still running alone beyond the bound: it does not terminate within the bound
+  let over := ops.filter (fun o => o.t == t && !o.disturbed && !o.reported && o.cnt > soloBound o.push)
+  let vo := over.map (fun o => s!"thread {t}: a {if o.push then "push" else "pop"} running alone has taken {o.cnt} events (solo bound {soloBound o.push})" ++ (match e with | .ret .. => "" | _ => " and has not returned"))
+  let ops := ops.map (fun o => if o.t == t && !o.disturbed && o.cnt > soloBound o.push then { o with reported := true } else o)
+  let a := { a with viol := vo ++ a.viol }
+  match e with
+  | .inv _ push _ _ =>
+    { a with st := s', ops := { t := t, push := push, cnt := 1, disturbed := false,
+                                emptyAtInv := a.st.map (fun s => (contents s).isEmpty) } :: ops }
+  | .ret _ ok _ =>
+    match ops.find? (fun o => o.t == t) with
+    | none => { a with st := s', ops := ops }
+    | some o =>
+      let ops' := ops.filter (fun o => o.t != t)
+      if o.disturbed then { a with st := s', ops := ops' } else
+      let v2 := match o.emptyAtInv with
+        | none => []
+        | some emp =>
+          if ok != (o.push || !emp) then
+            [s!"thread {t}: a {if o.push then "push" else "pop"} that ran alone returned {ok}; the model's chain was {if emp then "empty" else "non-empty"} when it began"]
           else []
-        let expectOk := o.push || !o.emptyAtInv
-        let v2 := if ok != expectOk then
-            [s!"thread {t}: a {if o.push then "push" else "pop"} that ran alone returned {ok}; the model's chain was {if o.emptyAtInv then "empty" else "non-empty"} when it began"]
-          else []
-        { a with st := s', ops := ops', checked := a.checked + 1,
-                 helped := a.helped + (if ops'.isEmpty then 0 else 1),
-                 maxPush := if o.push then max a.maxPush o.cnt else a.maxPush,
-                 maxPop := if o.push then a.maxPop else max a.maxPop o.cnt,
-                 viol := v2 ++ v1 ++ a.viol }
-    | _ => { a with st := s', ops := ops }
+      { a with st := s', ops := ops', checked := a.checked + 1,
+               helped := a.helped + (if ops'.isEmpty then 0 else 1),
+               maxPush := if o.push then max a.maxPush o.cnt else a.maxPush,
+               maxPop := if o.push then a.maxPop else max a.maxPop o.cnt,
+               viol := v2 ++ a.viol }
+  | _ => { a with st := s', ops := ops }
 
 def soloMon (fx : Bool) (n : Nat) (evs : List (Option Ev × String)) : SoloAcc :=
   evs.foldl (fun a p => match p.1 with
